@@ -142,6 +142,11 @@ def matchEvents : List (Bool × Event) → List Event → List Item × List Even
 
 def hexSx (b : Bytes) : Sx := Sx.ofBytes b
 
+/-- what a report can show of a timestamp: the reports are JSON documents, whose timestamps
+    carry the years 0 .. 9999; anything else is shown as the zero time -/
+def shownTime (sec : Int) : Int :=
+  if -62167219200 ≤ sec ∧ sec ≤ 253402300799 then sec else -62135596800
+
 partial def fvalSx : FVal → Sx
   | .bool b => .list [.atom "t", Sx.ofBool b]
   | .byte n => .list [.atom "b", Sx.ofNat n]
@@ -153,7 +158,7 @@ partial def fvalSx : FVal → Sx
   | .decimal s v => .list [.atom "D", Sx.ofNat s, Sx.ofInt v]
   | .str s => .list [.atom "S", hexSx s]
   | .arr xs => .list (.atom "A" :: xs.map fvalSx)
-  | .time t => .list [.atom "T", Sx.ofInt t]
+  | .time t => .list [.atom "T", Sx.ofInt (shownTime t)]
   | .table kvs => .list (.atom "F" :: tableSx kvs)
   | .nil => .list [.atom "V"]
   | .bytes b => .list [.atom "x", hexSx b]
@@ -168,7 +173,7 @@ def avalSx : AVal → Sx
   | .num n => Sx.ofNat n
   | .str s => hexSx s
   | .table kvs => .list (.atom "F" :: fvalSx.tableSx kvs)
-  | .time t => .list [.atom "T", Sx.ofInt t]
+  | .time t => .list [.atom "T", Sx.ofInt (shownTime t)]
   | .flag b => Sx.ofBool b
 
 /-- Properties as the Go struct holds them: every exported field, zero value when absent -/
